@@ -289,6 +289,20 @@ func main() {
 				rp = &sim.Replay{Vals: best, Strict: true}
 				fr = runFn(rp, o2)
 			}
+			if fr.Class != class {
+				// not even the original sequence shows it again in this process: the violation depends on memory the system
+				// under test keeps per process (a package-level pool), which the shrinking attempts have changed meanwhile.
+				// The record written before shrinking (the run as it happened) stays; the driver replays it after the
+				// preceding runs of this worker (carry mode).
+				v.Shrunk = vals.Len()
+				v.Replay = file
+				pending.Store(false)
+				rep.Violations = append(rep.Violations, v)
+				if len(rep.Violations) >= *maxViol {
+					break
+				}
+				continue
+			}
 			if *rdir != "" {
 				writeJSON(file, ReplayFile{Property: p.ID, Class: fr.Class, Detail: fr.Detail, Seed: *seed, Run: i, CarryFrom: *from, HB: sim.RaceEnabled,
 					Choices: best, Hash: fr.Hash, Case: fr.Case, Stack: fr.Stack})
